@@ -9,37 +9,37 @@ NSHARD = NCPU
 
 # lens: the observable fields a property constrains (a divergence elsewhere belongs to another property)
 PROPS = {
-    "C01": dict(families=["scalar-s", "scalar-n", "setvalue", "late-wrapper"], lens={"vals", "called", "err", "seterr", "agree"}, rand=("C01", 6000, 150000),
+    "C01": dict(families=["scalar-s", "scalar-n", "setvalue", "late-wrapper"], lens={"vals", "called", "err", "seterr", "agree"}, rand=("C01", 30000, 150000),
                 preds=["ScalarExact", "FlagSemantics", "CalledExact"]),
-    "C02": dict(families=["multi-ss", "multi-is", "multi-fs", "multi-sm", "setvalue"], lens={"vals", "err", "rest", "seterr"}, rand=("C02", 6000, 150000),
+    "C02": dict(families=["multi-ss", "multi-is", "multi-fs", "multi-sm", "setvalue"], lens={"vals", "err", "rest", "seterr"}, rand=("C02", 30000, 150000),
                 preds=["IntakeCount", "StoredInOrder", "MapStored"]),
-    "C03": dict(families=["conserve", "conserve-n", "deep-ro", "wrapper"], lens={"rest", "aliased"}, rand=("C03", 6000, 150000),
+    "C03": dict(families=["conserve", "conserve-n", "deep-ro", "wrapper"], lens={"rest", "aliased"}, rand=("C03", 30000, 150000),
                 preds=["Conservation", "UnknownNeverDropped"]),
-    "C04": dict(families=["term", "scalar-s"], lens={"rest", "vals", "called", "err", "aliased"}, rand=("C04", 6000, 150000),
+    "C04": dict(families=["term", "scalar-s"], lens={"rest", "vals", "called", "err", "aliased"}, rand=("C04", 30000, 150000),
                 preds=["TerminatorRoles", "Frozen (action property)"]),
-    "C05": dict(families=["abbrev", "late-wrapper"], lens={"vals", "called", "as", "err"}, rand=("C05", 6000, 400000),
+    "C05": dict(families=["abbrev", "late-wrapper"], lens={"vals", "called", "as", "err"}, rand=("C05", 30000, 400000),
                 preds=["UniquePrefixEqFull", "ExactWins", "AmbiguousRejectedAll"]),
-    "C06": dict(families=["alias", "setvalue"], lens={"vals", "called", "as", "agree"}, rand=("C06", 6000, 400000),
+    "C06": dict(families=["alias", "setvalue"], lens={"vals", "called", "as", "agree"}, rand=("C06", 30000, 400000),
                 preds=["AliasEqPrimary", "CalledExact", "UntouchedKeepDefault", "FrameOneOption (action property)"]),
-    "C07": dict(families=["modes"], lens={"vals", "called", "as", "rest", "err"}, rand=("C07", 6000, 150000),
+    "C07": dict(families=["modes"], lens={"vals", "called", "as", "rest", "err"}, rand=("C07", 30000, 150000),
                 preds=["LongModeIndependent", "RewriteEquiv"]),
-    "C08": dict(families=["wrapper", "conserve", "conserve-n", "inherit", "term"], lens={"err", "warn", "rest"}, rand=("C08", 6000, 150000),
+    "C08": dict(families=["wrapper", "conserve", "conserve-n", "inherit", "term"], lens={"err", "warn", "rest"}, rand=("C08", 30000, 150000),
                 preds=["UnknownNeverDropped"]),
-    "C10": dict(families=["tree", "late-wrapper"], lens={"ran", "derr", "helpof", "rest", "writer"}, rand=("C10", 6000, 400000),
+    "C10": dict(families=["tree", "late-wrapper"], lens={"ran", "derr", "helpof", "rest", "writer"}, rand=("C10", 30000, 400000),
                 preds=["ExactlyOneFn", "DeepestCommand"]),
-    "C11": dict(families=["required", "late-wrapper"], lens={"err", "derr", "ran", "helpof", "writer"}, rand=("C11", 6000, 600000),
+    "C11": dict(families=["required", "late-wrapper"], lens={"err", "derr", "ran", "helpof", "writer"}, rand=("C11", 30000, 600000),
                 preds=["RequiredEnforced"]),
-    "C12": dict(families=["env", "valid", "setvalue", "late-wrapper"], lens={"vals", "called", "as", "seterr"}, rand=("C12", 6000, 800000),
+    "C12": dict(families=["env", "valid", "setvalue", "late-wrapper"], lens={"vals", "called", "as", "seterr"}, rand=("C12", 30000, 800000),
                 preds=["EnvPrecedence", "CalledExact", "UntouchedKeepDefault"]),
-    "C17": dict(families=["complete", "complete-eq", "complete-w"], lens={"comps", "exits", "ran", "writer"}, rand=("C17", 6000, 800000),
+    "C17": dict(families=["complete", "complete-eq", "complete-w"], lens={"comps", "exits", "ran", "writer"}, rand=("C17", 30000, 800000),
                 preds=["CandidatesExact", "OfferedAccepted"]),
-    "C18": dict(families=["helpdoc"], lens={"help", "helpcomplete", "helpof"}, rand=("C18", 2500, 400000), relational=False,
+    "C18": dict(families=["helpdoc"], lens={"help", "helpcomplete", "helpof"}, rand=("C18", 6000, 400000), relational=False,
                 preds=["HelpDocComplete (evaluated on the parsed real text)", "HelpDocOf equality", "three paths same text"]),
-    "C19": dict(families=["modes", "wrapper", "complete-eq", "complete", "tree", "helpdoc"], lens={"panic", "hang", "rest", "exits"}, fuzz=(16000, 800000), level="exploration",
+    "C19": dict(families=["modes", "wrapper", "complete-eq", "complete", "tree", "helpdoc"], lens={"panic", "hang", "rest", "exits"}, fuzz=(24000, 800000), level="exploration",
                 preds=["NotStuck", "VariantDecreases (action property)", "ErrImpliesNilRest"]),
-    "C20": dict(families=["order", "complete", "complete-eq", "shadow"], lens={"nondet", "err", "derr", "comps", "warn", "aliased"}, rand=[("C20", 4000, 300000), ("C20c", 2000, 200000)],
+    "C20": dict(families=["order", "complete", "complete-eq", "shadow"], lens={"nondet", "err", "derr", "comps", "warn", "aliased"}, rand=[("C20", 8000, 300000), ("C20c", 4000, 200000)],
                 repeat=6, twice=True, preds=["FixedRule"]),
-    "C09": dict(families=["term", "conserve", "inherit", "deep-ro", "conserve-n"], lens={"rest", "vals", "called", "aliased"}, rand=("C09", 6000, 150000),
+    "C09": dict(families=["term", "conserve", "inherit", "deep-ro", "conserve-n"], lens={"rest", "vals", "called", "aliased"}, rand=("C09", 30000, 150000),
                 preds=["StopRoles", "PrefixAsUnordered", "NoStopAsUnordered", "Frozen (action property)"]),
 }
 
